@@ -10,6 +10,8 @@ GStep == /\ Len(h) < D /\ UNCHANGED done
                              \/ Remove(n) /\ St("remove", n)
                              \/ SetEnabled(n, TRUE) /\ St("enable", n)
                              \/ SetEnabled(n, FALSE) /\ St("disable", n)
+                             \/ ObjSetEnabled(n, TRUE) /\ en[n] = FALSE /\ St("objenable", n)
+                             \/ ObjSetEnabled(n, FALSE) /\ en[n] = TRUE /\ St("objdisable", n)
 GEnd == Len(h) = D /\ ~done /\ done' = TRUE /\ UNCHANGED <<vars, h>>
 GSpec == GInit /\ [][GStep \/ GEnd]_gvars
 Dump == done => PrintT(<<"BEH", ToJson(h)>>)
